@@ -123,7 +123,7 @@ pub struct Source {
     pub pos: u64,
     pub ops: usize,
     pub fault: Option<(usize, bool)>,
-    /// at most sched[i] bytes on the i-th raw read (empty: no short reads)
+    /// at most sched[i mod len] bytes on the i-th raw read (empty: no short reads)
     pub sched: Vec<usize>,
     pub raw_reads: usize,
 }
@@ -155,7 +155,8 @@ impl Read for Source {
     fn read(&mut self, b: &mut [u8]) -> io::Result<usize> {
         let i = self.raw_reads;
         self.raw_reads += 1;
-        let c = if i < self.sched.len() { self.sched[i].max(1) } else { b.len() };
+        // the schedule repeats: every raw read is short
+        let c = if self.sched.is_empty() { b.len() } else { self.sched[i % self.sched.len()].max(1) };
         let n = c.min(b.len()).min(self.rest().len());
         let p = (self.pos as usize).min(self.data.len());
         b[..n].copy_from_slice(&self.data[p..p + n]);
